@@ -341,6 +341,24 @@ pub fn gen_cases(ctx: &Ctx) -> Vec<Raw> {
             // structure-aware: cut the tail inside the last item and/or make the outer PDU length consistent again
             match r.below(4) {
                 0 if input.len() > 6 => { let cut = r.below(10.min(input.len() as u64 - 6)) as usize; let l = input.len() - cut; input.truncate(l); }
+                2 if input.len() > 80 && (input[0] == 1 || input[0] == 2) => {
+                    // A-ASSOCIATE-RQ/AC: walk the variable items (type, reserved, 16-bit length) from offset 74,
+                    // descend into the user information item, and give one (sub-)item an odd declared length
+                    let mut spots: Vec<usize> = vec![];
+                    let mut i = 74usize;
+                    while i + 4 <= input.len() {
+                        spots.push(i);
+                        let l = u16::from_be_bytes([input[i + 2], input[i + 3]]) as usize;
+                        if input[i] == 0x50 { let mut j = i + 4; while j + 4 <= (i + 4 + l).min(input.len()) { spots.push(j); j += 4 + u16::from_be_bytes([input[j + 2], input[j + 3]]) as usize; } }
+                        i += 4 + l;
+                    }
+                    if !spots.is_empty() {
+                        let at = *r.pick(&spots);
+                        let old = u16::from_be_bytes([input[at + 2], input[at + 3]]);
+                        let new: u16 = *r.pick(&[0u16, 1, 2, 3, 5, old.wrapping_sub(1), old.wrapping_add(1), 0xffff, 0x7fff]);
+                        input[at + 2..at + 4].copy_from_slice(&new.to_be_bytes());
+                    }
+                }
                 1 if input.len() >= 6 => { // hand-made P-DATA with a short last item
                     let k = r.below(8) as usize; let il = r.range(0, 6) as u32;
                     let mut v = vec![4u8, 0, 0, 0, 0, 0];
